@@ -111,7 +111,13 @@ CHECKS = {
             "and C10_next_root_name_refuted; snapshot and timestamp describe the written files exactly, every delegated role's "
             "file included (C10_meta_exact, C10_meta_exact_delegated); signing needs the threshold, for delegated roles under the "
             "delegating role (C10_delegated_sign_checked); incoming role metadata is incorporated only with a threshold of "
-            "distinct authorised signatures and a version not lower. Not proved for the composed system: the cross-party flow "
+            "distinct authorised signatures and a version not lower. The editing operations themselves (new, from_repo, "
+            "add/remove/clear targets, versions and expirations, delegate_role, sign_targets_editor, change_delegated_targets, "
+            "sign) are a Gallina state machine (Model/EdOps.v, following RepositoryEditor and TargetsEditor branch by branch): "
+            "any program whose final sign succeeds is loaded back (C10_program_roundtrip; refused calls change nothing; the "
+            "name premises are premises about the program's delegate_role calls, C10_roles_come_from_program), the two target "
+            "maps of a TargetsEditor refine one abstract map (C10_edit_refines_map) and the client finds in the top-level role "
+            "exactly that map after the operations made on it (C10_program_targets_seen). Not proved for the composed system: the cross-party flow "
             "(role holder signs elsewhere, update_delegated_targets, sign), target publication and download; these, odd names, "
             "copy/symlink publication are covered by the correspondence runs with an independent Python tracker of what was "
             "put in. Known finding: url_encoded_target_name.",
@@ -121,7 +127,10 @@ CHECKS = {
             "its answer is compared with every written role file (version, expiration, entries, delegation headers, key tables, "
             "signers), the tree as a client resolves it, snapshot and timestamp entries with the lengths and digests of the "
             "written files, and the file names; refusals of sign (inadequate key sets, under-signed delegated role, reserved "
-            "role name, target outside the delegated paths) against refusals of the model.", "5/C10"),
+            "role name, target outside the delegated paths) against refusals of the model. The model of the editing "
+            "operations (ed_run) is executed on every program: its answer per call (accepted / refused) is compared with the "
+            "real editor's, and the state it reaches at every sign call with the tracker's, which is what ed_sign_tree is then "
+            "run on.", "5/C10"),
     "C11": ("Coq proof that the CanonicalFormatter state machine (driven by serde_json's event sequence) computes the "
             "recursive OLPC specification; order-independence and sortedness theorems; differential correspondence "
             "and independent Python specification oracle",
